@@ -30,8 +30,31 @@ class C15(Prop):
                   "regrouping-invariance theorems of the specifications; D17 (1-Euclidean depends on storage order) is "
                   "a known finding")
     technique = "metamorphic testing under relabelling / storage permutation + Lean invariance corollaries of proved specs"
-    theorems = ["PrefVerif.C06.scores_perm", "PrefVerif.C06.plurality_regroup", "PrefVerif.C07.prefCount_perm",
-                "PrefVerif.C02.regroup", "PrefVerif.C04.bruteSC_iff", "PrefVerif.C04.scWitness_iff"]
+    theorems = [
+        "PrefVerif.C06.scores_perm",
+        "PrefVerif.C06.plurality_regroup",
+        "PrefVerif.C07.prefCount_perm",
+        "PrefVerif.C02.regroup",
+        "PrefVerif.C04.bruteSC_iff",
+        "PrefVerif.C04.scWitness_iff",
+        "PrefVerif.C15.contiguous_relabel",
+        "PrefVerif.C15.spOnAxis_relabel",
+        "PrefVerif.C15.bruteSP_relabel",
+        "PrefVerif.C15.kt_relabel",
+        "PrefVerif.C15.scSeq_relabel",
+        "PrefVerif.C15.bruteSC_relabel",
+        "PrefVerif.C15.prefCount_relabel",
+        "PrefVerif.C15.condorcet_relabel",
+        "PrefVerif.C15.scores_relabel",
+        "PrefVerif.C15.topCount_relabel_cex",
+        "PrefVerif.C15.argmaxSet_relabel",
+        "PrefVerif.C15.spOnAxis_perm",
+        "PrefVerif.C15.bruteSP_perm",
+        "PrefVerif.C15.bruteSC_perm",
+        "PrefVerif.C15.condorcet_perm",
+        "PrefVerif.C15.thresholdWinners_perm",
+        "PrefVerif.C15.approval_perm",
+    ]
     rule = ("ordinal profiles (planted single-peaked / single-crossing / tree / Euclidean and random; m up to 40, n up "
             "to 300 for the polynomial recognisers, m <= 6 for ILP and partition optimisers) and approval profiles (up "
             "to 30x30); 3 random relabellings x storage shuffles each; non-trivial = >= 2 ballots")
